@@ -44,6 +44,8 @@ CONSTANTS NT,         \* threads 1..NT  (thread 0 = the harness main thread, onl
           PipeNames,  \* which processor pipelines Init may choose (names of PipeTable)
           NRes,       \* resources 1..NRes (given to the provider)
           MaxRecs, MaxSets, MaxArgs, MaxFlush,
+          MaxNull,    \* EmitLogRecord calls with a null record per behaviour
+          LgSet,      \* loggers in use (subset of 1..3)
           MaxScope,   \* Scope objects created per behaviour
           MaxNest,    \* nesting depth of active spans per thread
           NSev, NBody, NTs, NId, NFl, NAK, NAV, MaxMap, NEv, NName,
@@ -58,7 +60,7 @@ AliasDev == "log-record-aliases-caller-buffers" \in Dev
 CrashDev == "eventid-without-name-crashes" \in Dev
 Junk     == 99
 Threads  == 1..NT
-Loggers  == 1..3              \* 1, 2: enabled, different instrumentation scopes; 3: disabled by the ScopeConfigurator
+Loggers  == LgSet             \* 1, 2: enabled, different instrumentation scopes; 3: disabled by the ScopeConfigurator
 Disabled(lg) == lg = 3
 AttrKeys == 1..NAK
 Stor(v)  == v % 2 = 1         \* the value lives in a caller buffer
@@ -71,10 +73,10 @@ VARIABLES pipe, res,          \* configuration, chosen in Init
           cur,                \* [Threads -> the EmitLogRecord call in progress]
           pending,            \* [1..Len(pipe) -> Seq of record ids]   queued in a batch processor
           exported,           \* [1..Len(pipe) -> Seq of snapshots]    what reached the exporter
-          nflush, crashed, devUsed,
+          nflush, nnull, crashed, devUsed,
           last, flags, hist
 
-bvars == <<pipe, res, spans, scopeIds, nscope, recs, cur, pending, exported, nflush, crashed, devUsed>>
+bvars == <<pipe, res, spans, scopeIds, nscope, recs, cur, pending, exported, nflush, nnull, crashed, devUsed>>
 vars  == <<bvars, last, flags, hist>>
 
 Procs == 1..Len(pipe)
@@ -146,7 +148,7 @@ Init == /\ pipe \in Pipelines /\ res \in 1..NRes
         /\ spans = [t \in Threads |-> <<>>] /\ scopeIds = [t \in Threads |-> {}] /\ nscope = 0
         /\ recs = <<>> /\ cur = [t \in Threads |-> Idle]
         /\ pending = [p \in Procs |-> <<>>] /\ exported = [p \in Procs |-> <<>>]
-        /\ nflush = 0 /\ crashed = FALSE /\ devUsed = {}
+        /\ nflush = 0 /\ nnull = 0 /\ crashed = FALSE /\ devUsed = {}
         /\ last = NoOp /\ flags = {}
         /\ hist = IF Hist THEN <<NoOp @@ [pipe |-> pipe, res |-> res, exp |-> NoExp, expDev |-> NoExp]>> ELSE <<>>
 
@@ -158,7 +160,7 @@ ScopeEnter(t, s) ==
   /\ spans' = [spans EXCEPT ![t] = Append(@, [id |-> nscope + 1, s |-> s])]
   /\ scopeIds' = [scopeIds EXCEPT ![t] = @ \cup {nscope + 1}]
   /\ nscope' = nscope + 1
-  /\ UNCHANGED <<pipe, res, recs, cur, pending, exported, nflush, crashed, devUsed>>
+  /\ UNCHANGED <<pipe, res, recs, cur, pending, exported, nflush, nnull, crashed, devUsed>>
   /\ Rec([NoOp EXCEPT !.op = "ScopeEnter", !.t = t, !.s = s, !.r = nscope + 1], NoExp, NoExp)
   /\ Flag({})
 
@@ -168,7 +170,7 @@ ScopeExit(t, id) ==
   /\ LET o == {i \in 1..Len(spans[t]) : spans[t][i].id = id} IN
      spans' = IF o = {} THEN spans ELSE [spans EXCEPT ![t] = SubSeq(@, 1, (CHOOSE i \in o : TRUE) - 1)]
   /\ scopeIds' = [scopeIds EXCEPT ![t] = @ \ {id}]
-  /\ UNCHANGED <<pipe, res, nscope, recs, cur, pending, exported, nflush, crashed, devUsed>>
+  /\ UNCHANGED <<pipe, res, nscope, recs, cur, pending, exported, nflush, nnull, crashed, devUsed>>
   /\ Rec([NoOp EXCEPT !.op = "ScopeExit", !.t = t, !.r = id], NoExp, NoExp)
   /\ Flag({})
 
@@ -180,7 +182,7 @@ CreateFlags(t) == (IF Len(spans[t]) >= 2 THEN {"nested_span"} ELSE {}) \cup
 Create(t, lg) ==
   /\ Alive /\ cur[t].mode = "idle" /\ Len(recs) < MaxRecs /\ lg \in Loggers
   /\ recs' = Append(recs, NewRec(t, lg))
-  /\ UNCHANGED <<pipe, res, spans, scopeIds, nscope, cur, pending, exported, nflush, crashed, devUsed>>
+  /\ UNCHANGED <<pipe, res, spans, scopeIds, nscope, cur, pending, exported, nflush, nnull, crashed, devUsed>>
   /\ Rec([NoOp EXCEPT !.op = "Create", !.t = t, !.r = Len(recs) + 1, !.lg = lg], NoExp, NoExp)
   /\ Flag(CreateFlags(t))
 
@@ -195,7 +197,7 @@ Set(t, r, a) ==
   /\ Alive /\ cur[t].mode = "idle" /\ r \in 1..Len(recs) /\ a \in Args
   /\ recs[r].t = t /\ recs[r].st = "open" /\ recs[r].nset < MaxSets
   /\ recs' = [recs EXCEPT ![r] = [Apply(@, a, TRUE) EXCEPT !.nset = @ + 1]]
-  /\ UNCHANGED <<pipe, res, spans, scopeIds, nscope, cur, pending, exported, nflush, crashed, devUsed>>
+  /\ UNCHANGED <<pipe, res, spans, scopeIds, nscope, cur, pending, exported, nflush, nnull, crashed, devUsed>>
   /\ Rec([NoOp EXCEPT !.op = "Set", !.t = t, !.r = r, !.a = a], NoExp, NoExp)
   /\ Flag(ApplyFlags(recs[r], a) \cup (IF a.k = "event" /\ a.nm = 0 THEN {"event_noname_setter"} ELSE {}))
 
@@ -208,7 +210,7 @@ BeginEmitRec(t, r) ==
   /\ recs[r].t = t /\ recs[r].st = "open"
   /\ recs' = [recs EXCEPT ![r].st = "emitting"]
   /\ cur' = [cur EXCEPT ![t] = [mode |-> "rec", r |-> r, lg |-> recs[r].lg, args |-> <<>>]]
-  /\ UNCHANGED <<pipe, res, spans, scopeIds, nscope, pending, exported, nflush, crashed, devUsed>>
+  /\ UNCHANGED <<pipe, res, spans, scopeIds, nscope, pending, exported, nflush, nnull, crashed, devUsed>>
   /\ Rec([NoOp EXCEPT !.op = "BeginEmit", !.t = t, !.r = r, !.lg = recs[r].lg, !.via = "rec"], NoExp, NoExp)
   /\ Flag(IF recs[r].span0 # ActiveSpan(t) THEN {"scope_changed_before_emit"} ELSE {})
 
@@ -216,13 +218,14 @@ BeginEmitNew(t, lg) ==
   /\ Alive /\ cur[t].mode = "idle" /\ Len(recs) < MaxRecs /\ lg \in Loggers
   /\ recs' = Append(recs, [NewRec(t, lg) EXCEPT !.st = "emitting"])
   /\ cur' = [cur EXCEPT ![t] = [mode |-> "new", r |-> Len(recs) + 1, lg |-> lg, args |-> <<>>]]
-  /\ UNCHANGED <<pipe, res, spans, scopeIds, nscope, pending, exported, nflush, crashed, devUsed>>
+  /\ UNCHANGED <<pipe, res, spans, scopeIds, nscope, pending, exported, nflush, nnull, crashed, devUsed>>
   /\ Rec([NoOp EXCEPT !.op = "BeginEmit", !.t = t, !.r = Len(recs) + 1, !.lg = lg, !.via = "new"], NoExp, NoExp)
   /\ Flag(CreateFlags(t))
 
 BeginEmitNull(t, lg) ==
-  /\ Alive /\ cur[t].mode = "idle" /\ lg \in Loggers
+  /\ Alive /\ cur[t].mode = "idle" /\ lg \in Loggers /\ nnull < MaxNull
   /\ cur' = [cur EXCEPT ![t] = [mode |-> "null", r |-> 0, lg |-> lg, args |-> <<>>]]
+  /\ nnull' = nnull + 1
   /\ UNCHANGED <<pipe, res, spans, scopeIds, nscope, recs, pending, exported, nflush, crashed, devUsed>>
   /\ Rec([NoOp EXCEPT !.op = "BeginEmit", !.t = t, !.lg = lg, !.via = "null"], NoExp, NoExp)
   /\ Flag({})
@@ -232,7 +235,7 @@ Arg(t, a) ==
   /\ Alive /\ cur[t].mode # "idle" /\ Len(cur[t].args) < MaxArgs /\ a \in Args
   /\ cur' = [cur EXCEPT ![t].args = Append(@, a)]
   /\ recs' = IF cur[t].mode = "null" THEN recs ELSE [recs EXCEPT ![cur[t].r] = Apply(@, a, FALSE)]
-  /\ UNCHANGED <<pipe, res, spans, scopeIds, nscope, pending, exported, nflush, crashed, devUsed>>
+  /\ UNCHANGED <<pipe, res, spans, scopeIds, nscope, pending, exported, nflush, nnull, crashed, devUsed>>
   /\ Rec([NoOp EXCEPT !.op = "Arg", !.t = t, !.r = cur[t].r, !.a = a], NoExp, NoExp)
   /\ Flag(IF cur[t].mode = "null" THEN {} ELSE ApplyFlags(recs[cur[t].r], a))
 
@@ -260,7 +263,7 @@ EndEmit(t) ==
      /\ devUsed' = devUsed \cup (IF boom THEN {"eventid-without-name-crashes"} ELSE {})
                            \cup (IF ~boom /\ AliasDev /\ Deliver(t, TRUE) # Deliver(t, FALSE)
                                     THEN {"log-record-aliases-caller-buffers"} ELSE {})
-     /\ UNCHANGED <<pipe, res, spans, scopeIds, nscope, nflush>>
+     /\ UNCHANGED <<pipe, res, spans, scopeIds, nscope, nflush, nnull>>
      /\ Rec([NoOp EXCEPT !.op = "EndEmit", !.t = t, !.r = c.r, !.lg = c.lg, !.via = c.mode, !.args = c.args,
                          !.mayCrash = HasNamelessEvent(c.args)],
             Deliver(t, FALSE), Deliver(t, TRUE))
@@ -279,7 +282,7 @@ Flush ==
   /\ pending' = [p \in Procs |-> <<>>]
   /\ nflush' = nflush + 1
   /\ devUsed' = devUsed \cup (IF AliasDev /\ Drain(TRUE) # Drain(FALSE) THEN {"log-record-aliases-caller-buffers"} ELSE {})
-  /\ UNCHANGED <<pipe, res, spans, scopeIds, nscope, recs, cur, crashed>>
+  /\ UNCHANGED <<pipe, res, spans, scopeIds, nscope, recs, cur, nnull, crashed>>
   /\ Rec([NoOp EXCEPT !.op = "Flush"], Drain(FALSE), Drain(TRUE))
   /\ Flag((IF Drain(TRUE) # Drain(FALSE) THEN {"alias_deferred"} ELSE {}) \cup
           (IF \E p \in Procs : Len(pending[p]) >= 2 THEN {"flush_many"} ELSE {}))
